@@ -649,7 +649,7 @@ class AgainstLibxc:
                 w, where = w2, dict(where2 or {}, sample="whole array with n_up == n_dw")
         return w, where
 
-    def deviation_one(self, seed, N, zero_pol):
+    def deviation_one(self, seed, N, zero_pol, backend="numpy"):
         import eminus
         from eminus.extras.libxc import pyscf_functional
         from eminus.xc.utils import get_xc
@@ -661,7 +661,20 @@ class AgainstLibxc:
         slot = ("mock_xc", self.f) if "_c_" in self.f else (self.f, "mock_xc")
         with np.errstate(all="ignore"):
             ref = pyscf_functional(TWINS[self.f], n_spin, self.Nspin, dn, None, None)
-            got = get_xc(list(slot), n_spin, self.Nspin, dn_spin=dn)
+            if backend == "numpy":
+                got = get_xc(list(slot), n_spin, self.Nspin, dn_spin=dn)
+            else:
+                # the built-in functional evaluated with the other array backend of the package (its default when importable), the reference stays the same
+                from eminus import backend as xp
+
+                eminus.config.backend = backend
+                try:
+                    if eminus.config.backend != backend:
+                        raise RuntimeError(f"harness: the {backend} backend is not available")
+                    got = get_xc(list(slot), xp.asarray(n_spin), self.Nspin, dn_spin=None if dn is None else xp.asarray(dn))
+                    got = [None if g is None else np.asarray(xp.to_np(g)) for g in got]
+                finally:
+                    eminus.config.backend = "numpy"
         worst, where = 0.0, None
         for name, a, b in zip(("exc", "vxc", "vsigma"), got[:3], ref[:3]):
             if a is None or b is None:
@@ -743,6 +756,38 @@ for _f in TWINS:
         register(Obligation(name=f"C09.libxc_native.{_f}{'_spin' if _ns == 2 else ''}", prop=PROP, engine="B", bounded=True, run=AgainstLibxc(_f, _ns),
                             functions=[f"eminus.xc.{_f}:{_f}{'_spin' if _ns == 2 else ''}", "eminus.extras.libxc:pyscf_functional"], budget={"quick": 200, "thorough": 900},
                             doc=f"BOUNDED: {_f} (Nspin={_ns}) against Libxc id {TWINS[_f]} through PySCF: exc, vxc, vsigma over 11 orders of magnitude in n, strong polarisation, non-parallel gradients"))
+
+
+class AgainstLibxcTorch:
+    """BOUNDED: the built-in functionals evaluated by get_xc with the Torch array backend (the package default when torch is importable) against the same
+    Libxc reference: the property under the default backend, not a comparison of backends."""
+
+    FUNCS = ("lda_x", "lda_c_vwn", "lda_c_pw_mod", "gga_x_pbe", "gga_c_pbe", "gga_x_chachiyo")
+
+    def __call__(self, ob, tier, seed):
+        if not _pyscf_available():
+            return Result(UNDECIDED, backend="native", detail="PySCF (Libxc) is not importable")
+        worst, first = 0.0, None
+        for f in self.FUNCS:
+            if f not in TWINS:
+                continue
+            for ns in (1, 2):
+                w, where = AgainstLibxc(f, ns).deviation_one(seed, 400 if tier == "quick" else 4000, False, backend="torch")
+                worst = max(worst, w)
+                if w > 1e-8 and first is None:
+                    first = dict(functional=f, Nspin=ns, deviation=w, where=where)
+        if first:
+            return Result(REFUTED, backend="native-vs-libxc", witness=dict(seed=seed, functional=first["functional"], Nspin=first["Nspin"]), replayed=True, replay_info=first,
+                          detail=f"with the Torch backend {first['functional']} (Nspin={first['Nspin']}) deviates from Libxc by {first['deviation']:.2e} in {first['where']['quantity'] if first['where'] else '?'}")
+        return Result(BOUNDED_OK, backend="native-vs-libxc", detail=f"bounded: {len(self.FUNCS)} functionals x 2 spin treatments through get_xc with the Torch backend: max relative deviation from Libxc {worst:.1e}")
+
+    def replay(self, wit):
+        w, where = AgainstLibxc(wit["functional"], wit["Nspin"]).deviation_one(wit["seed"], 400, False, backend="torch")
+        return bool(w > 1e-8), dict(deviation=w, where=where)
+
+
+register(Obligation(name="C09.libxc_native.torch_backend", prop=PROP, engine="B", bounded=True, run=AgainstLibxcTorch(), functions=["eminus.xc.utils:get_xc"], budget={"quick": 200, "thorough": 900},
+                    doc="BOUNDED: six built-in functionals, both spin treatments, evaluated by get_xc with the Torch backend against Libxc"))
 
 
 class ScfInterchange:
